@@ -11,7 +11,7 @@ Per property:
 
 COMMON_TRUST = [
     "rustc, Verus 0.2026.09.13 + Z3, Kani 0.68 + CBMC 6.11 tool chains",
-    "vxextract/vxlib edit list (DESIGN 3.1): DROP_ATTR, VIS, MONO, RENAME, INSERT_SPEC, DESUGAR_*; every application is logged in coverage.extraction",
+    "vxextract/vxlib edit list (DESIGN 3.1 and 0.1): DROP_ATTR, VIS, MONO, RENAME, PARAM_NAME, INSERT_SPEC, DESUGAR_*; every application is logged in coverage.extraction",
     "hand-written impl headers in unit.vrs replace the real impl headers (IMPL_HEADER rule)",
 ]
 
